@@ -15,6 +15,8 @@ MODULES = {'wpull', 'wpull.url', 'wpull.util', 'wpull.string', 'zlib', 'os', 'os
 MODULE_CONSTS = {}
 MODFUNCS = {}
 BUILTINS = {}
+EXC_ATTRS = {'UnicodeEncodeError': ('encoding', 'reason', 'object', 'start', 'end'), 'UnicodeDecodeError': ('encoding', 'reason', 'object', 'start', 'end'),
+             'OSError': ('errno', 'strerror', 'filename')}
 EXC_GROUPS = {}            # filled from wpull/processor/base.py by driver (REMOTE_ERRORS)
 EXC_ALIASES = {'zlib.error': 'ZlibError', 'error': 'ZlibError', 'asyncio.CancelledError': 'CancelledError',
                'asyncio.TimeoutError': 'AsyncTimeoutError', 'ipaddress.AddressValueError': 'AddressValueError',
@@ -23,6 +25,8 @@ EXC_ALIASES = {'zlib.error': 'ZlibError', 'error': 'ZlibError', 'asyncio.Cancell
 MUTATORS = {'append', 'add', 'remove', 'pop', 'discard', 'clear', 'appendleft', 'update', 'extend', 'popleft', 'insert', 'setdefault', 'write'}
 core_fresh_ids = itertools.count(1)
 NONE_OK = {'isinstance', 'str', 'bool', 'hasattr', 'repr', 'len', 'int', 'min', 'max', 'abs', 'wpull.util.reset_file_offset'}
+JOIN_ELEMENT_CLASSES = []      # library lemma instances: (all pieces in R) => ''.join(pieces) in R*
+UPPER_CLOSED_CLASSES = []      # character classes closed under a-f -> A-F
 JOIN = z3.Function('join', z3.StringSort(), z3.ArraySort(z3.IntSort(), z3.StringSort()), z3.IntSort(), z3.StringSort())
 
 
@@ -207,6 +211,7 @@ def comprehension(ex, e, st):
     seq = ex.ev(g.iter, st)
     if g.ifs: raise ToolLimit('filtered comprehension (line %s)' % e.lineno)
     if not isinstance(g.target, ast.Name): raise ToolLimit('comprehension target (line %s)' % e.lineno)
+    is_bytes_iter = isinstance(seq, VStr) and isinstance(seq.ty, TBytes)
     if isinstance(seq, VStr):
         # iteration over the characters / byte values of a string
         elem_of = (lambda i: VInt(z3.StrToCode(z3.SubString(seq.term, i, 1)))) if isinstance(seq.ty, TBytes) else (lambda i: VStr(z3.SubString(seq.term, i, 1), seq.ty))
@@ -218,6 +223,10 @@ def comprehension(ex, e, st):
     i = z3.Int(fid('ci'))
     s2 = st.fork(); s2.env = dict(s2.env); s2.env[g.target.id] = elem_of(i)
     s2.assume(z3.And(0 <= i, i < n))
+    if is_bytes_iter:
+        c = s2.env[g.target.id].term
+        s2.assume(z3.And(0 <= c, c <= 255))          # type invariant of bytes: every item is a byte value
+    n1 = len(s2.pc)
     saved = ex.ctx.raises; ex.ctx.raises = []
     body = ex.ev(e.elt, s2)
     inner_raises = ex.ctx.raises; ex.ctx.raises = saved
@@ -225,9 +234,16 @@ def comprehension(ex, e, st):
     if inner_raises and not ex.spec_mode:
         # an element computation may raise: the comprehension raises for some element
         for o in inner_raises: ex.ctx.raises.append(o)
+    extra = s2.pc[n1:]           # facts about the element (callee postconditions, library axioms): hold for every index
     out = fresh('comp', TList(body.ty))
     st.assume(out.n == n)
-    st.assume(z3.ForAll([i], z3.Implies(z3.And(0 <= i, i < n), z3.Select(out.arr, i) == body.term)))
+    guard = z3.And(0 <= i, i < n)
+    if is_bytes_iter: guard = z3.And(guard, 0 <= c, c <= 255)
+    st.assume(z3.ForAll([i], z3.Implies(guard, z3.And(extra + [z3.Select(out.arr, i) == body.term]))))
+    if is_bytes_iter:
+        j = z3.Int(fid('cj'))
+        cj = z3.StrToCode(z3.SubString(seq.term, j, 1))
+        st.assume(z3.ForAll([j], z3.Implies(z3.And(0 <= j, j < n), z3.And(0 <= cj, cj <= 255))))
     return out
 
 
@@ -340,6 +356,10 @@ def call_method(ex, st, node, recv, name, args, kwargs):
     if isinstance(recv, VList):
         if name == 'append':
             a = args[0]
+            if isinstance(a, VOpt) and not isinstance(recv.elem, TOpt):
+                # None into a list whose elements are used as non-None later (e.g. ''.join): the TypeError is reported here
+                a = ex.unopt(a, st, node)
+            if isinstance(recv.elem, TAny) and not isinstance(a, VAny): a = VAny(z3.FreshConst(AnySort, 'item'))
             if isinstance(a, VBool) and isinstance(recv.elem, TInt): a = VInt(z3.If(a.term, 1, 0))
             return VNone(), VList(z3.Store(recv.arr, recv.n, a.term), recv.n + 1, recv.elem)
         if name == 'pop' and not args:
@@ -412,6 +432,10 @@ def call_method(ex, st, node, recv, name, args, kwargs):
             return VStr(z3.Concat(*parts) if len(parts) > 1 else (parts[0] if parts else z3.StringVal('')), recv.ty), None
         if not isinstance(lst, VList): raise ToolLimit('join of %s (line %s)' % (type(lst).__name__, ln))
         r = JOIN(recv.term, lst.arr, lst.n)
+        if z3.is_string_value(recv.term) and recv.term.as_string() == '':
+            for R in JOIN_ELEMENT_CLASSES:
+                i = z3.Int(fid('ji'))
+                st.assume(z3.Implies(z3.ForAll([i], z3.Implies(z3.And(0 <= i, i < lst.n), z3.InRe(z3.Select(lst.arr, i), R))), z3.InRe(r, z3.Star(R))))
         st.assume(z3.Implies(lst.n == 0, r == z3.StringVal('')))
         st.assume(z3.Implies(lst.n == 1, r == z3.Select(lst.arr, 0)))
         st.assume(z3.Implies(lst.n == 2, r == z3.Concat(z3.Select(lst.arr, 0), recv.term, z3.Select(lst.arr, 1))))
@@ -574,6 +598,8 @@ def to_str(ex, st, v):
     if isinstance(v, VRef):
         m = ex.find_method(v.cls, '__str__')
         if m: return ex.apply_contract(CONTRACTS[m], [v], {}, st, None).term
+    if isinstance(v, VFunc) and v.kind == 'excinst': return z3.FreshConst(z3.StringSort(), 'exc_str')
+    if isinstance(v, (VAny, VTuple, VList)): return z3.FreshConst(z3.StringSort(), 'str_of')
     raise ToolLimit('str() of %s' % type(v).__name__)
 
 
@@ -642,6 +668,8 @@ class VEmpty(V):
 
 def empty_of(ty):
     if isinstance(ty, TOpt): return to_opt(empty_of(ty.elem), ty.elem)
+    if isinstance(ty, TAny): return VAny(z3.FreshConst(AnySort, 'empty'))
+    if isinstance(ty, TDict) and isinstance(ty.val, (TList, TSet, TDict)): raise ToolLimit('dict of containers')
     if isinstance(ty, TSet): return VSet(z3.K(sort_of(ty.elem), z3.BoolVal(False)), z3.IntVal(0), ty.elem)
     if isinstance(ty, TDict):
         if isinstance(ty.val, TOpt):
@@ -735,6 +763,11 @@ def b_int(ex, st, node, v, base=None):
         b = bt.as_long()
     if b == 10: lang, fn = NUMERAL, PYINT
     elif b == 16: lang, fn = NUMERAL16, PYINT16
+    elif b == 8:
+        od = z3.Range('0', '7')
+        lang = z3.Concat(_ws, z3.Option(z3.Union(z3.Re('+'), z3.Re('-'))), z3.Option(z3.Union(z3.Re('0o'), z3.Re('0O'))),
+                         z3.Plus(od), z3.Star(z3.Concat(z3.Re('_'), z3.Plus(od))), _ws)
+        fn = z3.Function('py_int8', z3.StringSort(), z3.IntSort())
     else: raise ToolLimit('int() base %d' % b)
     ok = z3.InRe(v.term, lang)
     ex.may_raise(st, 'ValueError', node, z3.Not(ok), ok, 'int() of non-numeral')
@@ -976,3 +1009,401 @@ def m_basename(ex, st, node, p):
 for _m in ('posixpath', 'os.path'):
     MODFUNCS[_m + '.dirname'] = m_dirname
     MODFUNCS[_m + '.basename'] = m_basename
+
+
+# =====================================================================================================================
+# concrete module-level constants (re-read from the working tree), character sets, ipaddress, idna, urllib -- used by url.py
+# =====================================================================================================================
+class VConst(V):
+    """a concrete Python container read from the source (dict / frozenset / tuple of scalars)"""
+    def __init__(self, py): self.py = py; self.ty = TAny()
+
+    def truth(self): return z3.BoolVal(bool(self.py))
+
+
+class VCharsOf(V):
+    """frozenset(some_string), optionally intersected with a concrete character set"""
+    def __init__(self, term, chars=None): self.term = term; self.chars = chars; self.ty = TAny()
+
+    def truth(self):
+        if self.chars is None: return z3.Length(self.term) > 0
+        if not self.chars: return z3.BoolVal(False)
+        anyc = z3.Star(z3.AllChar(z3.ReSort(z3.StringSort())))
+        return z3.InRe(self.term, z3.Concat(anyc, re_of_chars(sorted(self.chars)), anyc))
+
+
+class VFiltered(V):
+    """generator expression with a filter over a static tuple: [(condition, value)]"""
+    def __init__(self, items): self.items = items; self.ty = TAny()
+
+
+def const_value(py):
+    if isinstance(py, (dict, frozenset, set)): return VConst(py)
+    if isinstance(py, (tuple, list)) and all(isinstance(x, (int, str, bytes)) for x in py): return VConst(tuple(py))
+    return const(py)
+
+
+def module_constants(relpath, names=None):
+    """evaluate the simple top-level constant assignments of a module (literals, frozenset/chr/range/| of earlier names)"""
+    import os
+    src = open(os.path.join(REPO, relpath), encoding='utf-8').read()
+    tree = ast.parse(src)
+    env = {'frozenset': frozenset, 'chr': chr, 'range': range, 'set': set, 'tuple': tuple, 'ord': ord, 'len': len, 'dict': dict, 'list': list, 'bytes': bytes, 'int': int}
+    out = {}
+    for n in tree.body:
+        if isinstance(n, ast.Assign) and len(n.targets) == 1 and isinstance(n.targets[0], ast.Name):
+            nm = n.targets[0].id
+            if names is not None and nm not in names: continue
+            try:
+                allowed = all(isinstance(x, (ast.Constant, ast.Name, ast.Call, ast.BinOp, ast.BitOr, ast.BitAnd, ast.Sub, ast.Add, ast.Dict, ast.Tuple, ast.List, ast.Set,
+                                             ast.Load, ast.GeneratorExp, ast.comprehension, ast.Store, ast.Mult)) for x in ast.walk(n.value))
+                if not allowed: continue
+                val = eval(compile(ast.Expression(n.value), relpath, 'eval'), dict(env, __builtins__={}, **out))
+                out[nm] = val
+            except Exception:
+                continue
+    return out
+
+
+def const_contains(c, x, st):
+    py = c.py
+    keys = list(py.keys()) if isinstance(py, dict) else list(py)
+    if isinstance(x, VOpt):
+        return z3.And(z3.Not(x.isnone), const_contains(c, x.val, st))
+    if isinstance(x, VNone): return z3.BoolVal(None in keys)
+    if isinstance(x, VInt): return z3.Or([x.term == k for k in keys if isinstance(k, int)] or [z3.BoolVal(False)])
+    if isinstance(x, VStr):
+        ks = [k for k in keys if isinstance(k, (str, bytes))]
+        ks = [k.decode('latin-1') if isinstance(k, bytes) else k for k in ks]
+        return z3.Or([x.term == z3.StringVal(k) for k in ks] or [z3.BoolVal(False)])
+    raise ToolLimit('membership of %s in a constant container' % type(x).__name__)
+
+
+_contains0 = contains
+
+
+def contains(container, x, st):
+    if isinstance(container, VConst): return const_contains(container, x, st)
+    if isinstance(container, VCharsOf):
+        ok = z3.And(z3.Length(x.term) == 1, z3.Contains(container.term, x.term))
+        return ok
+    return _contains0(container, x, st)
+
+
+_index0 = index
+
+
+def index(ex, base, idx, st, node):
+    if isinstance(base, VConst) and isinstance(base.py, dict):
+        has = const_contains(base, idx, st)
+        if isinstance(idx, VOpt): idx = idx.val
+        ex.may_raise(st, 'KeyError', node, z3.Not(has), has, 'key not in constant dict')
+        return const_dict_lookup(base, idx, None)
+    if isinstance(base, VConst) and isinstance(base.py, tuple):
+        k = z3.simplify(idx.term)
+        if z3.is_int_value(k): return const(base.py[k.as_long()])
+    return _index0(ex, base, idx, st, node)
+
+
+def const_dict_lookup(c, key, default):
+    items = list(c.py.items())
+    vals = [const(v) for k, v in items]
+    res = default if default is not None else vals[-1]
+    for (k, v), vv in reversed(list(zip(items, vals))):
+        res = ite(key.term == (z3.StringVal(k) if isinstance(k, str) else k), vv, res)
+    return res
+
+
+_call_method0 = call_method
+
+
+def call_method(ex, st, node, recv, name, args, kwargs):
+    if isinstance(recv, VConst) and isinstance(recv.py, dict) and name == 'get':
+        key = args[0]
+        if isinstance(key, VOpt): key = key.val
+        has = const_contains(recv, args[0], st)
+        dflt = args[1] if len(args) > 1 else VNone()
+        found = const_dict_lookup(recv, key, None)
+        return ite(has, found, dflt), None
+    return _call_method0(ex, st, node, recv, name, args, kwargs)
+
+
+def b_frozenset2(ex, st, node, *a):
+    if a and isinstance(a[0], VStr): return VCharsOf(a[0].term)
+    return b_frozenset(ex, st, node, *a)
+
+
+BUILTINS['frozenset'] = b_frozenset2
+_set_binop0 = set_binop
+
+
+def set_binop(op, a, b, st):
+    if isinstance(a, VCharsOf) and isinstance(b, VConst) and isinstance(op, ast.BitAnd):
+        return VCharsOf(a.term, set(b.py) if a.chars is None else set(b.py) & a.chars)
+    return _set_binop0(op, a, b, st)
+
+
+ASCII_REPR = z3.Function('py_ascii', z3.StringSort(), z3.StringSort())
+BUILTINS['ascii'] = lambda ex, st, node, v: VStr(ASCII_REPR(v.term)) if isinstance(v, VStr) else VStr(z3.FreshConst(z3.StringSort(), 'ascii'))
+POW2 = z3.Function('pow2', z3.IntSort(), z3.IntSort())
+SUM = z3.Function('py_sum', z3.ArraySort(z3.IntSort(), z3.IntSort()), z3.IntSort(), z3.IntSort())
+
+
+def b_sum(ex, st, node, v):
+    if isinstance(v, VList) and isinstance(v.elem, TInt):
+        r = SUM(v.arr, v.n)
+        i = z3.Int(fid('i'))
+        st.assume(z3.Implies(z3.ForAll([i], z3.Implies(z3.And(0 <= i, i < v.n), z3.Select(v.arr, i) >= 0)), r >= 0))
+        return VInt(r)
+    raise ToolLimit('sum(%s)' % type(v).__name__)
+
+
+BUILTINS['sum'] = b_sum
+_b_min0 = b_min
+
+
+def b_min2(ex, st, node, *a):
+    if len(a) == 1 and isinstance(a[0], VFiltered):
+        items = a[0].items
+        none_ok = z3.Not(z3.Or([c for c, v in items] or [z3.BoolVal(False)]))
+        ex.may_raise(st, 'ValueError', node, none_ok, z3.Not(none_ok), 'min() of an empty sequence')
+        r = z3.FreshInt('min')
+        st.assume(z3.Or([z3.And(c, r == v.term) for c, v in items] or [z3.BoolVal(False)]))
+        for c, v in items: st.assume(z3.Implies(c, r <= v.term))
+        return VInt(r)
+    return _b_min0(ex, st, node, *a)
+
+
+BUILTINS['min'] = b_min2
+_b_all_any = {'all': BUILTINS['all'], 'any': BUILTINS['any']}
+
+
+def b_anyall(which):
+    def f(ex, st, node, v):
+        if isinstance(v, VTuple):
+            ts = [truthy(x) for x in v.items]
+            return VBool((z3.And if which == 'all' else z3.Or)(ts) if ts else z3.BoolVal(which == 'all'))
+        return _b_all_any[which](ex, st, node, v)
+    return f
+
+
+BUILTINS['all'] = b_anyall('all'); BUILTINS['any'] = b_anyall('any')
+_comprehension0 = comprehension
+
+
+def comprehension(ex, e, st):
+    if len(e.generators) == 1:
+        g = e.generators[0]
+        seq = ex.ev(g.iter, st) if not (isinstance(g.iter, ast.Call) and isinstance(g.iter.func, ast.Name) and g.iter.func.id == 'enumerate') else None
+        if seq is None:
+            # enumerate(list): index, item
+            inner = ex.ev(g.iter.args[0], st)
+            if isinstance(inner, VList) and isinstance(g.target, ast.Tuple) and len(g.target.elts) == 2 and not g.ifs:
+                i = z3.Int(fid('ci'))
+                s2 = st.fork(); s2.env = dict(s2.env)
+                s2.env[g.target.elts[0].id] = VInt(i); s2.env[g.target.elts[1].id] = wrap(z3.Select(inner.arr, i), inner.elem)
+                s2.assume(z3.And(0 <= i, i < inner.n))
+                n1 = len(s2.pc)
+                saved = ex.ctx.raises; ex.ctx.raises = []
+                body = ex.ev(e.elt, s2)
+                inner_raises = ex.ctx.raises; ex.ctx.raises = saved
+                ex.merge_heap(s2, st)
+                for o in inner_raises: ex.ctx.raises.append(o)
+                extra = s2.pc[n1:]
+                out = fresh('comp', TList(body.ty))
+                st.assume(out.n == inner.n)
+                st.assume(z3.ForAll([i], z3.Implies(z3.And(0 <= i, i < inner.n), z3.And(extra + [z3.Select(out.arr, i) == body.term]))))
+                return out
+            raise ToolLimit('enumerate comprehension (line %s)' % e.lineno)
+        items = None
+        if isinstance(seq, VTuple): items = seq.items
+        elif isinstance(seq, VConst) and not isinstance(seq.py, dict): items = [const(x if not isinstance(x, bytes) else x) for x in sorted(seq.py, key=repr)]
+        if items is not None and isinstance(g.target, ast.Name):
+            res = []
+            for it in items:
+                s2 = st.fork(); s2.env = dict(s2.env); s2.env[g.target.id] = it
+                conds = [truthy(ex.ev(c, s2)) for c in g.ifs]
+                v = ex.ev(e.elt, s2)
+                ex.merge_heap(s2, st)
+                res.append((z3.And(conds) if conds else None, v))
+            if g.ifs: return VFiltered([(c, v) for c, v in res])
+            return VTuple([v for c, v in res])
+    return _comprehension0(ex, e, st)
+
+
+# ---- ipaddress -------------------------------------------------------------------------------------------------------------
+class VIPAddr(V):
+    def __init__(self, kind, term): self.kind = kind; self.term = term; self.ty = TAny()
+
+    def attr(self, ex, st, node, name):
+        if name == 'compressed':
+            if self.kind == 4:
+                r = IPV4_STR(self.term)
+                d = z3.Union(z3.Re('0'), z3.Concat(z3.Range('1', '9'), z3.Loop(z3.Range('0', '9'), 0, 2)))
+                st.assume(z3.InRe(r, z3.Concat(d, z3.Re('.'), d, z3.Re('.'), d, z3.Re('.'), d)))
+                return VStr(r)
+            r = IPV6_STR(self.term)
+            hexc = z3.Union(z3.Range('0', '9'), z3.Range('a', 'f'), z3.Re(':'), z3.Re('.'))
+            # py >= 3.9: an optional scope id "%<anything but %>" is kept verbatim
+            st.assume(z3.InRe(r, z3.Concat(z3.Plus(hexc), z3.Option(z3.Concat(z3.Re('%'), z3.Plus(z3.Diff(z3.AllChar(z3.ReSort(z3.StringSort())), z3.Re('%'))))))))
+            st.assume(z3.Implies(z3.Not(z3.Contains(self.term, z3.StringVal('%'))), z3.InRe(r, z3.Plus(hexc))))
+            st.assume(z3.Contains(r, z3.StringVal(':')))
+            return VStr(r)
+        raise ToolLimit('ipaddress attribute %s' % name)
+
+
+IPV4_STR = z3.Function('ipv4_str', z3.IntSort(), z3.StringSort())
+IPV6_STR = z3.Function('ipv6_compressed', z3.StringSort(), z3.StringSort())
+IPV6_OK = z3.Function('ipv6_valid', z3.StringSort(), z3.BoolSort())
+
+
+def m_ipv4(ex, st, node, v):
+    if isinstance(v, VStr): raise ToolLimit('IPv4Address(str)')
+    i = ex.as_int(v, st, node).term
+    ok = z3.And(i >= 0, i <= 4294967295)
+    ex.may_raise(st, 'AddressValueError', node, z3.Not(ok), ok, 'IPv4Address out of range')
+    return VIPAddr(4, i)
+
+
+def m_ipv6(ex, st, node, v):
+    ok = IPV6_OK(v.term)
+    ex.may_raise(st, 'AddressValueError', node, z3.Not(ok), ok, 'IPv6Address invalid')
+    return VIPAddr(6, v.term)
+
+
+MODFUNCS['ipaddress.IPv4Address'] = m_ipv4
+MODFUNCS['ipaddress.IPv6Address'] = m_ipv6
+VALID_CODEC = z3.Function('valid_codec', z3.StringSort(), z3.BoolSort())
+ENCODABLE = z3.Function('encodable', z3.StringSort(), z3.StringSort(), z3.BoolSort())
+
+
+def nosur(t):
+    anyc = z3.Star(z3.AllChar(z3.ReSort(z3.StringSort())))
+    return z3.Not(z3.InRe(t, z3.Concat(anyc, z3.Range(chr(0xd800), chr(0xdfff)), anyc)))
+
+
+def spec_encodable(ex, st, s, enc):
+    if z3.is_string_value(enc.term) and enc.term.as_string().lower().replace('_', '-') in ('utf-8', 'utf8'): return VBool(nosur(s.term))
+    return VBool(ENCODABLE(s.term, enc.term))
+
+
+SPECFUNS['encodable'] = spec_encodable
+SPECFUNS['valid_codec'] = lambda ex, st, s: VBool(z3.BoolVal(True) if z3.is_string_value(s.term) and s.term.as_string().lower().replace('_', '-') in ('utf-8', 'utf8', 'ascii', 'latin-1', 'latin1', 'iso-8859-1') else VALID_CODEC(s.term))
+SPECFUNS['ascii_transparent'] = lambda ex, st, s: VBool(z3.Function('ascii_transparent_codec', z3.StringSort(), z3.BoolSort())(s.term))
+UNQUOTE = z3.Function('urllib_unquote', z3.StringSort(), z3.StringSort(), z3.StringSort())
+
+
+def m_unquote(ex, st, node, s, encoding=None, errors=None):
+    enc = encoding.term if encoding is not None else z3.StringVal('utf-8')
+    if encoding is not None and not z3.is_string_value(enc):
+        ok = VALID_CODEC(enc)
+        ex.may_raise(st, 'LookupError', node, z3.And(z3.Not(ok), z3.Contains(s.term, z3.StringVal('%'))), z3.Or(ok, z3.Not(z3.Contains(s.term, z3.StringVal('%')))), 'unknown codec')
+    r = UNQUOTE(s.term, enc)
+    st.assume(z3.Implies(z3.Not(z3.Contains(s.term, z3.StringVal('%'))), r == s.term))
+    st.assume((s.term == z3.StringVal('')) == (r == z3.StringVal('')))
+    return VStr(r)
+
+
+MODFUNCS['urllib.parse.unquote'] = m_unquote
+MODFUNCS['percent_decode'] = m_unquote
+URLJOIN = z3.Function('urllib_urljoin', z3.StringSort(), z3.StringSort(), z3.BoolSort(), z3.StringSort())
+
+
+def m_urljoin(ex, st, node, base, url, allow_fragments=None):
+    """urllib.parse.urljoin: assumed to raise ValueError only ("Invalid IPv6 URL", bad netloc); cross-checked by bounded/urljoin soup"""
+    ex.may_raise(st, 'ValueError', node, z3.FreshBool('urljoin_fails'), z3.BoolVal(True), 'urllib urljoin rejects')
+    af = allow_fragments.term if isinstance(allow_fragments, VBool) else z3.BoolVal(True)
+    return VStr(URLJOIN(base.term, url.term, af))
+
+
+MODFUNCS['urllib.parse.urljoin'] = m_urljoin
+IDNA = z3.Function('idna_encode', z3.StringSort(), z3.StringSort())
+IDNA_OK = z3.Function('idna_ok', z3.StringSort(), z3.BoolSort())
+_str_encode0 = str_encode
+
+
+def str_encode(ex, st, node, recv, args, kwargs):
+    codec = codec_name(args, kwargs)
+    if codec == 'idna':
+        ok = IDNA_OK(recv.term)
+        # the idna codec raises plain UnicodeError (empty / over-long label) or UnicodeEncodeError
+        ex.may_raise(st, 'UnicodeError', node, z3.Not(ok), ok, 'idna codec rejects')
+        r = IDNA(recv.term)
+        st.assume(z3.InRe(r, z3.Star(z3.Range(chr(0), chr(127)))))
+        st.assume((recv.term == z3.StringVal('')) == (r == z3.StringVal('')))
+        return VStr(r, TBytes())
+    a = args[0] if args else kwargs.get('encoding')
+    if a is not None and not (isinstance(a, VStr) and z3.is_string_value(a.term)):
+        # symbolic codec name: LookupError unless valid; UnicodeEncodeError possible; result = some bytes
+        a = a.val if isinstance(a, VOpt) else a
+        ok = VALID_CODEC(a.term)
+        ex.may_raise(st, 'LookupError', node, z3.Not(ok), ok, 'unknown codec')
+        okenc = ENCODABLE(recv.term, a.term)
+        st.assume(z3.Implies(z3.Or(a.term == z3.StringVal('utf-8'), a.term == z3.StringVal('utf8')), okenc == nosur(recv.term)))
+        ex.may_raise(st, 'UnicodeEncodeError', node, z3.Not(okenc), okenc, 'not encodable')
+        f = z3.Function('enc_dyn', z3.StringSort(), z3.StringSort(), z3.StringSort())
+        r = f(recv.term, a.term)
+        st.assume(z3.InRe(r, z3.Star(z3.Range(chr(0), chr(255)))))
+        return VStr(r, TBytes())
+    return _str_encode0(ex, st, node, recv, args, kwargs)
+
+
+def m_posix_split(ex, st, node, p):
+    return VTuple([m_dirname(ex, st, node, p), m_basename(ex, st, node, p)])
+
+
+MODFUNCS['posixpath.split'] = m_posix_split
+BUILTINS['id'] = lambda ex, st, node, v: VInt(z3.FreshInt('id'))
+BUILTINS['hash'] = lambda ex, st, node, v: VInt(z3.FreshInt('hash'))
+NONE_OK.update({'id', 'hash', 'ascii'})
+# struct / socket (plausible replacements for ipaddress in a refactoring): struct.error is NOT a ValueError
+BUILTIN_EXC_BASES['StructError'] = 'Exception'; EXC_BASES['StructError'] = 'Exception'
+EXC_ALIASES['struct.error'] = 'StructError'
+
+
+def m_struct_pack(ex, st, node, fmt, *vals):
+    if z3.is_string_value(fmt.term) and fmt.term.as_string().lstrip('!<>=@') == 'I' and len(vals) == 1:
+        i = ex.as_int(vals[0], st, node).term
+        ok = z3.And(i >= 0, i <= 4294967295)
+        ex.may_raise(st, 'StructError', node, z3.Not(ok), ok, 'struct.pack: integer out of range for I format')
+        return VStr(z3.Function('struct_pack_I', z3.IntSort(), z3.StringSort())(i), TBytes())
+    raise ToolLimit('struct.pack format')
+
+
+MODFUNCS['struct.pack'] = m_struct_pack
+MODFUNCS['socket.inet_ntoa'] = lambda ex, st, node, b: VStr(z3.Function('inet_ntoa', z3.StringSort(), z3.StringSort())(b.term))
+MODULES.update({'struct', 'socket'})
+
+
+class VSuper(V):
+    ty = TAny()
+    def attr(self, ex, st, node, name): return VFunc('builtin', 'noop')
+
+
+BUILTINS['noop'] = lambda ex, st, node, *a, **k: VNone()
+UPPERPCT = z3.Function('re_sub_upper_pct', z3.StringSort(), z3.StringSort())
+
+
+def m_re_sub(ex, st, node, pattern, repl, text, *rest, **kw):
+    """re.sub(<literal pattern>, lambda m: m.group(0).upper(), text): the case-mapping substitution used by uppercase_percent_encoding.
+    Library contract (assumed, validated by enumeration in pyvc/axioms.py): length preserved; every character is unchanged or an
+    a-f mapped to A-F, hence membership in R* is kept for every class R closed under that mapping."""
+    if isinstance(repl, VFunc) and repl.kind == 'lambda' and src_of(repl.name.body).replace(' ', '') in ('match.group(0).upper()', 'm.group(0).upper()', 'match.group().upper()'):
+        if not z3.is_string_value(pattern.term): raise ToolLimit('re.sub non-literal pattern')
+        pat = pattern.term.as_string()
+        import re as _re
+        if not _re.fullmatch(r'%(\[[a-fA-F0-9\-]+\]){2}', pat): raise ToolLimit('re.sub pattern %r not covered by the case-mapping contract' % pat)
+        r = z3.Function('re_sub_upper_' + ''.join('%02x' % ord(c) for c in pat), z3.StringSort(), z3.StringSort())(text.term)
+        st.assume(z3.Length(r) == z3.Length(text.term))
+        for R in UPPER_CLOSED_CLASSES:
+            st.assume(z3.Implies(z3.InRe(text.term, z3.Star(R)), z3.InRe(r, z3.Star(R))))
+        return VStr(r, text.ty)
+    raise ToolLimit('re.sub with this replacement (line %s)' % getattr(node, 'lineno', '?'))
+
+
+def src_of(n):
+    try: return ast.unparse(n)
+    except Exception: return ''
+
+
+MODFUNCS['re.sub'] = m_re_sub
